@@ -21,7 +21,7 @@ Ev == Traces[tid][l]
 More == l <= Len(Traces[tid])
 Step == l' = l + 1 /\ UNCHANGED tid
 
-Frozen == /\ fam = "trace" /\ fixed = TRUE /\ script = <<>> /\ pc = <<>> /\ out = <<>> /\ lock = 0
+Frozen == /\ fam = "trace" /\ disc = "intended" /\ script = <<>> /\ pc = <<>> /\ out = <<>> /\ lock = 0
           /\ stopped = <<>> /\ choice = 0 /\ wid = 0
 
 TInit == /\ tid \in 1..NTraces /\ l = 1 /\ MonInit /\ Frozen
